@@ -230,6 +230,24 @@ def check_case(case) -> Result:
                        inner=[k, l], **ctx)
             break
 
+    # ---- slice of a reversed peptide (interval list no longer in sequence order) ----
+    if pep['intervals']:
+        rev = model.m_reverse(pep)
+        ra = a0.reverse()
+        for (i, j) in case['slices'][:3]:
+            i, j = min(i, n), min(j, n)
+            if i > j:
+                i, j = j, i
+            if not (_cuts_ok(rev, i) and _cuts_ok(rev, j)):
+                continue
+            exp = model.expected(model.m_slice(rev, i, j))
+            obs = model.project(ra.slice(i, j))
+            if _sub(model.sorted_proj(obs), CMP_SLICE) != _sub(model.sorted_proj(exp), CMP_SLICE):
+                fields = [f for f in CMP_SLICE if model.sorted_proj(obs)[f] != model.sorted_proj(exp)[f]]
+                r.fail('slice keeps exactly the fully contained intervals, also after a reversal', 'C11/reverse-then-slice/' + '+'.join(fields),
+                       bounds=[i, j], reversed=ra.serialize(), result=ra.slice(i, j).serialize(), **ctx)
+                break
+
     # ---- split ----
     if not pep['intervals'] and not pep['unknown']:
         pieces = pt.split(s)
